@@ -47,6 +47,12 @@ func isMembership(prog *load.Program, fn *types.Func, pi int, depth int) bool {
 		return ok && info.ObjectOf(id) == param
 	}
 	eqParam := func(e ast.Expr) bool {
+		// equality with the parameter, exact or up to case (finitely many strings fold to a stored one)
+		if call, ok := ast.Unparen(e).(*ast.CallExpr); ok && len(call.Args) == 2 {
+			if cf, _ := typeutil.Callee(info, call).(*types.Func); cf != nil && cf.FullName() == "strings.EqualFold" {
+				return isParam(call.Args[0]) || isParam(call.Args[1])
+			}
+		}
 		be, ok := ast.Unparen(e).(*ast.BinaryExpr)
 		return ok && be.Op == token.EQL && (isParam(be.X) || isParam(be.Y))
 	}
@@ -62,6 +68,13 @@ func isMembership(prog *load.Program, fn *types.Func, pi int, depth int) bool {
 			case token.GEQ, token.NEQ, token.GTR:
 				// search(...) >= 0, != -1, != nil
 				return answer(x.X)
+			}
+		case *ast.IndexExpr:
+			// a lookup in a map under the parameter: maps are finite
+			if t := info.TypeOf(x.X); t != nil {
+				if _, isMap := t.Underlying().(*types.Map); isMap && isParam(x.Index) {
+					return true
+				}
 			}
 		case *ast.CallExpr:
 			cf, _ := typeutil.Callee(info, x).(*types.Func)
@@ -153,8 +166,12 @@ func isMembership(prog *load.Program, fn *types.Func, pi int, depth int) bool {
 			}
 			return true
 		}
+		lastIsAnswerVar := false
+		if id, ok := ast.Unparen(last).(*ast.Ident); ok && answerVars[info.ObjectOf(id)] {
+			lastIsAnswerVar = true
+		}
 		switch {
-		case answer(last):
+		case answer(last), lastIsAnswerVar:
 			found = true
 		case isNo():
 		default:
